@@ -564,7 +564,19 @@ Fixpoint emit_mjar (j : mjar) : option (list str) :=
 Inductive rop :=
 | RSet (on_copy : bool) (name : str) (v : cval) (secret : option str)
 | RDel (on_copy : bool) (name : str)
-| RCopy.
+| RCopy
+| RApply (cookies : list (str * cval * option str)).
+  (* an HTTPResponse / HTTPError with these cookies set on it is raised or returned and applied to the
+     (original) response: response.py:274 apply — its jar REPLACES the response's jar, unless it is empty *)
+
+Fixpoint mjar_set_all (j : mjar) (cs : list (str * cval * option str)) : mjar + serr :=
+  match cs with
+  | [] => inl j
+  | (n, v, s) :: r => match mjar_set j n v s false with
+                      | inl j' => mjar_set_all j' r
+                      | inr e => inr e
+                      end
+  end.
 
 Definition rpair := (mjar * option mjar)%type.
 
@@ -581,6 +593,11 @@ Definition rstep (st : rpair) (o : rop) : rpair * option serr * bool :=   (* sta
   | RSet oc name v secret => upd oc (fun j => mjar_set j name v secret false)
   | RDel oc name => upd oc (fun j => mjar_delete j name)
   | RCopy => ((r, Some (mjar_copy r)), None, false)
+  | RApply cs => match mjar_set_all [] cs with
+                 | inl [] => (st, None, false)
+                 | inl hj => ((hj, c), None, false)
+                 | inr e => (st, Some e, false)
+                 end
   end.
 
 (* several get_cookie calls on ONE request object: the request keeps no state
@@ -669,7 +686,7 @@ Arguments LRaise {val}. Arguments LFalsy {val}. Arguments LPair {val}.
 Arguments DNone {val}. Arguments DLoaded {val}. Arguments DB64Error {val}. Arguments DEncodeError {val}.
 Arguments GDefault {val}. Arguments GStr {val}. Arguments GVal {val}.
 Arguments GCookieError {val}. Arguments GRaise {val}. Arguments GNoFuel {val}.
-Arguments RSet {val}. Arguments RDel {val}. Arguments RCopy {val}.
+Arguments RSet {val}. Arguments RDel {val}. Arguments RCopy {val}. Arguments RApply {val}.
 Arguments QRGet {val}. Arguments QRStr {val}. Arguments QRDict {val}. Arguments QRCookieError {val}. Arguments QRNoFuel {val}.
 
 (* ------------------------------------------------------------------ *)
@@ -922,6 +939,10 @@ Definition dec_rop (l : list Z) : option (@rop pk * list Z) :=
                       | None => None
                       end
   | 2%Z :: r => Some (RCopy, r)
+  | 3%Z :: r => match dec_list dec_cspec r with
+                | Some (cs, r') => Some (RApply (List.map (fun c => (c_name c, c_cval c, c_secret c)) cs), r')
+                | None => None
+                end
   | _ => None
   end.
 
@@ -935,7 +956,11 @@ Fixpoint rrun (st : @rpair) (ops : list (@rop pk)) : @rpair * list Z :=
   end.
 
 Definition rop_table (ops : list (@rop pk)) : list (list N * str) :=
-  flat_map (fun o => match o with RSet _ n (CObj p) _ => [(p, n)] | _ => [] end) ops.
+  flat_map (fun o => match o with
+                     | RSet _ n (CObj p) _ => [(p, n)]
+                     | RApply cs => flat_map (fun x => match x with (n, CObj p, _) => [(p, n)] | _ => [] end) cs
+                     | _ => []
+                     end) ops.
 
 (* what a client keeps of a Set-Cookie value: the pair before the first ';' *)
 Definition strip_attrs (w : str) : str := fst (split_once N.eqb 59 w).
